@@ -27,10 +27,14 @@ import json
 import math
 import os
 
-import numpy as np
+# small matrices only: threaded BLAS/LAPACK costs 0.2 s per 12x12 inverse in this sandbox
+for _k in ('OPENBLAS_NUM_THREADS', 'OMP_NUM_THREADS', 'MKL_NUM_THREADS'):
+    os.environ.setdefault(_k, '1')
 
-import common
-from common import f2h, h2f
+import numpy as np  # noqa: E402
+
+import common  # noqa: E402
+from common import f2h, h2f  # noqa: E402
 
 LEVEL = 'proof'
 LEANCHECKER = True
@@ -351,6 +355,8 @@ def run_models(ctx, models, tag='random', truth=False):
         rec['sum_at'] = (float(x[k]), float(y[k]))
         lines.append(f"{pre}sum {n} " + " ".join(enc_comps(m.comps) + [f2h(x[k]), f2h(y[k])]))
         lines.append("assign " + " ".join(map(str, m.masks)))
+        # the C branch of covar_errors uses the Jacobian without B
+        lines.append(f"{pre}lmjac {n} {m.npix} " + " ".join(ct + px + m.errs_tokens() + ['bnone']) if m.use_c else "rank 0")
         with np.errstate(all='ignore'):
             rec['jac'] = np.asarray(fitting.jacobian(p, x, y), dtype=float)
             nfree = sum(bin(v).count('1') for v in m.masks)
@@ -446,7 +452,7 @@ def run_models(ctx, models, tag='random', truth=False):
                          dict(site='fitting.covar_errors', what='stderr-assignment-model'))
             elif rec['lmjac'] is not None and rec['onesigma'] is not None:
                 # value level: Fisher matrix from the model's Jacobian
-                hdr, ml = floats(outs[s + 1], 2)
+                hdr, ml = floats(outs[s + 4] if m.use_c else outs[s + 1], 2)
                 Jm = ml.reshape(hdr)
                 with np.errstate(all='ignore'):
                     try:
@@ -570,6 +576,8 @@ def run(ctx):
         run_models(ctx, models[chunk:chunk + 100])
     index_sweep(ctx, sweep_lists(ctx))
     bmatrix_contract(ctx)
+    # implementation vs the property directly (cheap; independent of which obligation broke)
+    leaf_spec_probe(ctx, 60 if ctx.quick else 600)
     seen = ctx.extra.pop('_masks_seen', set())
     ctx.extra['vary_masks_covered'] = f"{len(seen)}/64"
 
@@ -599,9 +607,9 @@ def leaf_probe(ctx, fitting, pts):
     for (x, y, c), o in zip(pts, outs):
         _, t = floats(o)
         p = mk_params([c], [63])
-        impl = np.asarray(fitting.jacobian(p, np.array([x]), np.array([y])), dtype=float)[:, 0]
-        fd = np.array([fd_entry(fitting, x, y, c, k) for k in range(6)])
-        res.append((impl, t[1:], fd, float(fitting.elliptical_gaussian(x, y, *c)), t[0]))
+        impl = [float(v) for v in np.asarray(fitting.jacobian(p, np.array([x]), np.array([y])), dtype=float)[:, 0]]
+        fd = [float(fd_entry(fitting, x, y, c, k)) for k in range(6)]
+        res.append((impl, [float(v) for v in t[1:]], fd, float(fitting.elliptical_gaussian(x, y, *c)), float(t[0])))
     return res
 
 
@@ -618,36 +626,29 @@ def leaf_bad(impl, truth, fd, scale):
     return bad
 
 
-def search(ctx):
-    common.use_repo()
-    if any(f['kind'] == 'spec' for f in ctx.failures):
-        return
+def leaf_spec_probe(ctx, npts):
+    """implementation vs the property, entry by entry: `fitting.jacobian` against the hand formulas proved
+       correct in Lean (evaluated at Float) with Richardson finite differences of `fitting.elliptical_gaussian`
+       as a second opinion.  Reports the first failing (params, pixel, entry) per entry kind, shrunk."""
     fitting = fit()
     rng = ctx.rng
-    ok, log = common.lean_build(['Aegean.Proofs.C04Hand', 'Aegean.Driver.C04'])
-    if not ok:
-        ctx.note("the reference formulas (Proofs/C04Hand) do not build: " + "; ".join(common.lean_errors(log, 3)))
-        return
-    # (a) single entries: verified derivative at Float + Richardson vs fitting.jacobian
     pts = [(4.0, 5.0, (2.0, 4.0, 4.0, 3.0, 1.5, 30.0))]
-    for _ in range(300):
+    for _ in range(npts):
         c = rand_comp(rng, 10, 10)
         pts.append((float(rng.randint(0, 9)), float(rng.randint(0, 9)), c))
     res = leaf_probe(ctx, fitting, pts)
-    found = None
+    found = {}
     for (x, y, c), (impl, truth, fd, g, tg) in zip(pts, res):
-        ctx.count('search-leaf')
+        ctx.count('spec-probe-leaf')
         if abs(g - tg) > 1e-10 * max(abs(g), abs(tg)) + 1e-13 * abs(c[0]):
             ctx.fail('spec', dict(kind='model', x=x, y=y, comp=list(c)),
                      f"elliptical_gaussian = {g!r}, the Gaussian of the property is {tg!r}",
                      dict(site='fitting.elliptical_gaussian', what='model'))
-            return
-        bad = leaf_bad(impl, truth, fd, abs(c[0]))
-        if bad:
-            found = (x, y, c, bad[0])
-            break
-    if found:
-        x, y, c, k = shrink_leaf(ctx, fitting, *found)
+            return True
+        for k in leaf_bad(impl, truth, fd, abs(c[0])):
+            found.setdefault(k, (x, y, c, k))
+    for k in sorted(found):
+        x, y, c, k = shrink_leaf(ctx, fitting, *found[k])
         (impl, truth, fd, g, tg), = leaf_probe(ctx, fitting, [(x, y, c)])
         ratio = impl[k] / truth[k] if truth[k] else float('inf')
         ctx.fail('spec', dict(kind='leaf', x=x, y=y, comp=list(c), entry=PARS[k]),
@@ -657,6 +658,19 @@ def search(ctx):
                  f"ratio impl/true = {ratio:.6g}",
                  dict(site='fitting.jacobian', what='entry', entry=PARS[k],
                       ratio_180_over_pi=bool(abs(ratio - 180 / math.pi) < 1e-6 * 180 / math.pi)))
+    return bool(found)
+
+
+def search(ctx):
+    common.use_repo()
+    if any(f['kind'] == 'spec' for f in ctx.failures):
+        return
+    ok, log = common.lean_build(['Aegean.Proofs.C04Hand', 'Aegean.Driver.C04'])
+    if not ok:
+        ctx.note("the reference formulas (Proofs/C04Hand) do not build: " + "; ".join(common.lean_errors(log, 3)))
+        return
+    # (a) single entries: verified derivative at Float + Richardson vs fitting.jacobian
+    if leaf_spec_probe(ctx, 400):
         return
     # (b) multi-component: row order, row count, whitening, stderr values against the verified formulas
     models = [model_from_case(c) for c in corpus_cases()]
